@@ -222,7 +222,38 @@ func c03bases() []c03base {
 		"Sub":   jm{"allOf": jl{jm{"$ref": "#/definitions/Thing"}, jm{"type": "object", "properties": jm{"y": jm{"type": "string"}}}}},
 	}
 
-	return []c03base{{"full", full}, {"bodyform", bodyform}, {"pathparams", pathparams}, {"inherit", inherit}, {"minimal", minimal}, {"nopaths", nopaths}}
+	// a document of some size WITHOUT any $ref (rules that work on the expanded copy of the document
+	// must not depend on there being something to expand)
+	norefs := c03head()
+	norefs["paths"] = jm{
+		"/things/{tid}": jm{
+			"parameters": jl{pathParam("tid", "string"), jm{"name": "limit", "in": "query", "type": "integer"}, jm{"name": "X-Trace", "in": "header", "type": "string", "pattern": "^[a-f0-9]+$"}},
+			"get": jm{
+				"operationId": "getThing",
+				"parameters":  jl{jm{"name": "tags", "in": "query", "type": "array", "items": jm{"type": "string"}}},
+				"responses": jm{"200": jm{"description": "ok", "schema": jm{"type": "object", "required": jl{"name"}, "properties": jm{"name": jm{"type": "string"}}},
+					"headers": jm{"X-Rate": jm{"type": "integer"}}}},
+			},
+			"put": jm{
+				"operationId": "putThing",
+				"parameters":  jl{jm{"name": "payload", "in": "body", "required": true, "schema": jm{"type": "object", "properties": jm{"name": jm{"type": "string"}}}}},
+				"responses":   jm{"204": jm{"description": "done"}},
+			},
+		},
+		"/uploads": jm{
+			"post": jm{
+				"operationId": "upload",
+				"consumes":    jl{"multipart/form-data"},
+				"parameters":  jl{jm{"name": "label", "in": "formData", "type": "string"}, jm{"name": "pic", "in": "formData", "type": "file"}},
+				"responses":   okResp(),
+			},
+		},
+	}
+	norefs["definitions"] = jm{
+		"Plain": jm{"type": "object", "required": jl{"id"}, "properties": jm{"id": jm{"type": "integer"}, "label": jm{"type": "string"}}},
+	}
+
+	return []c03base{{"full", full}, {"bodyform", bodyform}, {"pathparams", pathparams}, {"inherit", inherit}, {"minimal", minimal}, {"nopaths", nopaths}, {"norefs", norefs}}
 }
 
 // ---- sites -----------------------------------------------------------------------------------------
